@@ -169,6 +169,7 @@ def one_case(ctx, sc, k, n, mode, follow):
         res.update({'rc': r.rc, 'ops': ops, 'errors': r.errors()[:3]})
         hit = [x for x in recs if x['seq'] == str(n) and x['call'] not in ('ACTION', 'PAUSE')]
         res['call'] = (hit[-1]['call'].replace('KILL-BEFORE:', ''), tr.rel(hit[-1]['path'], root)) if hit else None
+        creating = bool(hit) and hit[-1]['call'].endswith('open') and 'CREAT' in (hit[-1].get('extra') or '')
         own_tmp = (store.group_name(sc.t) if sc.name in ('first', 'rotate') else store.group_name(hist.T0), '.' + store.backup_name(sc.t))
         own_final = (own_tmp[0], own_tmp[1][1:])
         s1 = hash_tree(root)
@@ -199,7 +200,7 @@ def one_case(ctx, sc, k, n, mode, follow):
             if r.rc == 0 and not published:
                 res['problems'].append('exit status 0 although nothing was published')
             hit_own_cleanup = res['call'] and res['call'][0] in ('unlink', 'rmdir', 'opendir', 'fdopendir', 'open', 'lstat', 'stat', 'fstat', 'readdir', 'close', 'closedir') \
-                and res['call'][1] and list(res['call'][1][:2]) == list(own_tmp) and any(f[0] in ('unlink', 'rmdir') or True for f in failed)
+                and res['call'][1] and list(res['call'][1][:2]) == list(own_tmp) and not creating      # (a failed creation of a file is not part of the clean-up)
             if r.rc != 0 and os.path.lexists(os.path.join(root, *own_tmp)) and not hit_own_cleanup:
                 res['problems'].append('the failing run left its own temporary directory %s/%s' % own_tmp)
             if r.rc == 0 and res['call'] and res['call'][0] in MUTATING and res['call'][1] and list(res['call'][1][:2]) == list(own_tmp):
